@@ -414,6 +414,12 @@ class Gen(object):
 
     def s_print(self, depth):
         typ = self.pick(["int", "str", "bool", "map", "arr", "any", "int", "str"])
+        if typ in ("int", "str") and self.chance(15):
+            # comma-separated arguments are joined by a space; printn leaves the line open for the next print
+            self.labels.add("print-forms")
+            if self.chance(50):
+                return [("printm", [("str", self.fresh_tag()), self.expr(typ, 1), self.expr(self.pick(["int", "str"]), 2)])]
+            return [("printn", ("bin", ".", ("str", self.fresh_tag()), self.expr(typ, 1))), ("print", ("str", "|end"))]
         return [self.show(self.expr(typ, 1), typ)]
 
     def s_field(self, depth):
@@ -462,7 +468,7 @@ class Gen(object):
         return [self.show(("srec",), "map")]
 
     def s_oos(self, depth):
-        k = self.pick(["count", "sum", "last", "nested", "read", "unset", "arr"])
+        k = self.pick(["count", "sum", "last", "nested", "read", "unset", "arr", "pair"])
         if k == "count":
             self.oos_types["count"] = "int"
             self.labels.add("oosvar")
@@ -478,6 +484,10 @@ class Gen(object):
             self.labels.add("oosvar")
             return [("opassign", "+", ("index", ("oos", "acc"), [("field", "s"), ("bin", "%", ("field", "i"), ("int", 2))]), ("int", 1))] if self.chance(50) else \
                    [("assign", ("index", ("oos", "acc"), [("field", "s"), ("bin", ".", ("str", "n"), ("ctx", "NR"))]), ("field", "i"))]
+        if k == "pair" and self.in_main and not self.rec_dirty:
+            self.oos_types["psum"] = "pair"
+            self.labels.add("oosvar")
+            return [("opassign", "+", ("index", ("oos", "psum"), [("field", "s")]), ("field", "i")), ("opassign", "+", ("index", ("oos", "pcnt"), [("field", "s")]), ("int", 1))]
         if k == "last" and self.in_main:
             self.oos_types["last"] = "rec"
             return [("assign", ("oos", "last"), ("srec",))]
@@ -745,12 +755,17 @@ class Gen(object):
             prog.append(("begin", b + self.block(0, 2, 1)))
         self.in_main = True
         self.frames = [{}]
-        main = [s for _ in range(self.i(1, 7)) for s in self.stmt(0)]
+        main = []
+        if self.chance(12):
+            # two accumulators with identical key sets, for the lashed emit in the end block (placed first: the input fields are still intact)
+            self.oos_types["psum"] = "pair"
+            main += [("opassign", "+", ("index", ("oos", "psum"), [("field", "s")]), ("field", "i")), ("opassign", "+", ("index", ("oos", "pcnt"), [("field", "s")]), ("int", 1))]
+        main += [s for _ in range(self.i(1, 7)) for s in self.stmt(0)]
         if self.chance(25):
             self.labels.add("pattern-action")
             main.insert(self.i(0, len(main)), ("patact", self.e_bool(1), self.block(1, 3, 1)))
         prog += main
-        if self.chance(55):
+        if self.chance(55) or "psum" in self.oos_types:
             self.in_main = False
             self.frames = [{}]
             endb = self.block(0, 2, 1)
@@ -775,6 +790,9 @@ class Gen(object):
             self.labels.add("emit-by-names")
             return [self.pick([("emit", v, [("str", "s"), ("str", "k")]), ("emitp", v, [("str", "s"), ("str", "k")]), ("emit", v, [("str", "s")]), ("emitp", v, [("str", "s")]),
                                ("emit", v, []), ("emitp", v, [])])]
+        if t == "pair":
+            self.labels.add("emit-lashed")
+            return [("emitl", [("oos", "psum"), ("oos", "pcnt")], [("str", "s")], self.chance(40))]
         if t == "rec":
             return [("emit", v, [])] if self.chance(50) else [("emit1", ("bin", "??", v, ("maplit", [])))]
         if t == "arr":
@@ -826,7 +844,7 @@ def to_tuple(x):
 
 
 NODE_TAGS = {"int", "float", "str", "bool", "absent", "field", "fieldx", "posname", "posval", "srec", "oos", "oosall", "local", "ctx", "bin", "un", "tern", "index", "slice", "maplit", "arrlit",
-             "call", "funclit", "assign", "opassign", "decl", "unset", "if", "while", "dowhile", "for3", "fork", "forkv", "formulti", "break", "continue", "print", "printn", "dump", "dumpe",
+             "call", "funclit", "assign", "opassign", "decl", "unset", "if", "while", "dowhile", "for3", "fork", "forkv", "formulti", "break", "continue", "print", "printm", "printn", "dump", "dumpe",
              "emit1", "emit", "emitp", "emitl", "emitf", "filter", "return", "callsub", "bare", "func", "subr", "begin", "end", "patact"}
 
 
